@@ -91,6 +91,7 @@ pub fn to_json(s: &[Decision], img: &FsImage) -> Value {
                 }
                 Decision::Cores { n } => json!({ "op": "available_parallelism", "n": n }),
                 Decision::Timeout { fired } => json!({ "op": "timed_wait", "deadline_passed": fired }),
+                Decision::Program { name, available } => json!({ "op": "external_program", "name": name, "installed": available }),
             })
             .collect(),
     )
@@ -143,6 +144,10 @@ pub fn from_json(v: &Value, img: &FsImage) -> Result<Vec<Decision>, String> {
             }),
             Some("timed_wait") => out.push(Decision::Timeout {
                 fired: e["deadline_passed"].as_bool().unwrap_or(false),
+            }),
+            Some("external_program") => out.push(Decision::Program {
+                name: e["name"].as_str().unwrap_or("").to_string(),
+                available: e["installed"].as_bool().unwrap_or(true),
             }),
             o => return Err(format!("unknown schedule op {:?}", o)),
         }
